@@ -46,4 +46,105 @@ pub proof fn lemma_usize_shl_one(k: u32)
         requires k < 64;
 }
 
+
+/// smallest power of two >= x  (the value of `usize::next_power_of_two`, absent overflow)
+pub open spec fn spec_npot(x: int) -> int
+    decreases x
+{
+    if x <= 1 { 1 } else { 2 * spec_npot((x + 1) / 2) }
+}
+
+pub open spec fn is_pow2(x: int) -> bool
+    decreases x
+{
+    x == 1 || (x > 1 && x % 2 == 0 && is_pow2(x / 2))
+}
+
+pub proof fn lemma_npot_basic(x: int)
+    ensures spec_npot(x) >= x, spec_npot(x) >= 1, is_pow2(spec_npot(x))
+    decreases x
+{
+    if x > 1 {
+        lemma_npot_basic((x + 1) / 2);
+        let h = spec_npot((x + 1) / 2);
+        assert((2 * h) / 2 == h);
+        assert((2 * h) % 2 == 0);
+    }
+}
+
+/// minimality: every power of two >= x is >= npot(x)
+pub proof fn lemma_npot_min(x: int, q: int)
+    requires is_pow2(q), q >= x
+    ensures spec_npot(x) <= q
+    decreases x
+{
+    if x > 1 {
+        assert(q > 1);
+        lemma_npot_min((x + 1) / 2, q / 2);
+    }
+}
+
+pub proof fn lemma_pow2_floor_basic(a: int)
+    requires a >= 1
+    ensures is_pow2(pow2_floor(a)), pow2_floor(a) <= a, a < 2 * pow2_floor(a)
+    decreases a
+{
+    if a > 1 {
+        lemma_pow2_floor_basic(a / 2);
+        let h = pow2_floor(a / 2);
+        assert((2 * h) / 2 == h);
+        assert((2 * h) % 2 == 0);
+    }
+}
+
+/// maximality: every power of two <= a is <= pow2_floor(a)
+pub proof fn lemma_pow2_floor_max(a: int, q: int)
+    requires a >= 1, is_pow2(q), q <= a
+    ensures q <= pow2_floor(a)
+    decreases a
+{
+    lemma_pow2_floor_basic(a);
+    if a > 1 && q > 1 {
+        assert(q % 2 == 0 && is_pow2(q / 2));
+        assert(q / 2 <= a / 2);
+        lemma_pow2_floor_max(a / 2, q / 2);
+        assert(q == 2 * (q / 2));
+    }
+}
+
+/// C15: the compressed route (c <= max_constraints(pp)) and the direct route (trim(npot(c + 6)) succeeds, i.e.
+/// npot(c + 6) + 6 <= max_degree) accept exactly the same constraint counts c >= 1, for every SRS capacity.
+pub proof fn lemma_max_constraints_exact(c: int, max_degree: int)
+    requires c >= 1, max_degree >= 0
+    ensures (c <= spec_max_constraints(max_degree)) <==> (spec_npot(c + 6) + 6 <= max_degree)
+{
+    let a = if max_degree >= 6 { max_degree - 6 } else { 0 };
+    lemma_npot_basic(c + 6);
+    if a == 0 {
+        assert(spec_max_constraints(max_degree) == 0);
+    } else {
+        lemma_pow2_floor_basic(a);
+        let p = pow2_floor(a);
+        if c <= spec_max_constraints(max_degree) {
+            assert(p >= 7);
+            lemma_npot_min(c + 6, p);
+        }
+        if spec_npot(c + 6) + 6 <= max_degree {
+            lemma_pow2_floor_max(a, spec_npot(c + 6));
+        }
+    }
+}
+
+
+/// ASSUMED contract of `usize::next_power_of_two` (std): smallest power of two >= x; must not overflow
+pub assume_specification[ usize::next_power_of_two ](x: usize) -> (r: usize)
+    requires spec_npot(x as int) <= usize::MAX
+    ensures r as int == spec_npot(x as int);
+
+pub proof fn lemma_npot_upper(x: int, bound: int)
+    requires is_pow2(bound), x <= bound
+    ensures spec_npot(x) <= bound
+{
+    lemma_npot_min(x, bound);
+}
 } // verus!
